@@ -1,5 +1,15 @@
 #include "vh.h"
 #include <unistd.h>
+#include <valgrind/valgrind.h>
+
+extern int vh_poison;          /* vh_alloc.c: fill fresh and released heap blocks with this byte (-1 = off) */
+
+/* C15: leave a chosen residue on the stack region the next operation will use */
+static void __attribute__((noinline)) paint_stack(int byte) {
+    volatile uint8_t area[192 * 1024];
+    memset((void *)area, byte, sizeof(area));
+    __asm__ volatile("" ::"r"(area) : "memory");
+}
 
 static char obuf[1 << 22];
 static size_t olen;
@@ -163,6 +173,9 @@ int main(int argc, char **argv) {
     setvbuf(stdout, iobuf, _IOFBF, sizeof(iobuf));
     const char *ff = getenv("VH_FLUSH"); /* flush after each op so a crash loses nothing */
     bool flush = !ff || strcmp(ff, "0") != 0;
+    const char *pp = getenv("VH_PAINT"); /* residue byte for stack and heap, e.g. "a5" */
+    int paint = pp ? (int)strtol(pp, NULL, 16) & 0xFF : -1;
+    vh_poison = paint;
     const char *ot = getenv("VH_OP_TIMEOUT");
     unsigned op_timeout = ot ? (unsigned)atoi(ot) : 120;
     while ((len = getline(&line, &cap, stdin)) > 0) {
@@ -193,6 +206,12 @@ int main(int argc, char **argv) {
         if (!f) {
             fputs("bad-op\n", stdout);
         } else {
+            if (paint >= 0) {
+                paint_stack(paint);
+            }
+            if (RUNNING_ON_VALGRIND) {
+                VALGRIND_PRINTF("VHOP %ld\n", cur_line);
+            }
             alarm(op_timeout); /* an operation that does not terminate is reported as signal 14 */
             f(&l);
             alarm(0);
